@@ -112,7 +112,7 @@ static _Bool post_same_pairs(const col_type *c0, const val_type *v0, const col_t
 """
 
 sort_row = Unit(
-    name='sort_row', props=['C08', 'C03', 'C10'],
+    name='sort_row', props=['C08', 'C03', 'C17', 'C10'],
     functions=['detail::sort_row(Col*, Val*, int)'],
     desc='after the call col[0..n) is ascending and the multiset of (col,val) pairs is unchanged; cells >= n untouched',
     cuts=dict(body=Cut(SORT_ROW_SRC, SORT_ROW_ANCHOR,
@@ -157,7 +157,7 @@ void h_sort_row(void)
 
 # index safety + frame of sort_row for EVERY n (inductive: the invariants are scalar)
 sort_row_safety = Unit(
-    name='sort_row_safety', props=['C08', 'C10'],
+    name='sort_row_safety', props=['C08', 'C17', 'C10'],
     functions=['detail::sort_row(Col*, Val*, int)'],
     desc='memory safety and frame of sort_row for every n: only col[0..n) and val[0..n) are accessed; terminates',
     cuts=dict(body=Cut(SORT_ROW_SRC, SORT_ROW_ANCHOR,
@@ -674,7 +674,7 @@ static _Bool post_rows_same_pairs(const crs_snap *o, const crs *A)
 }
 """
 sort_rows_u = Unit(
-    name='builtin_sort_rows', props=['C08', 'C03', 'C10'],
+    name='builtin_sort_rows', props=['C08', 'C03', 'C17', 'C10'],
     functions=['backend::sort_rows(crs&)', 'detail::sort_row'],
     desc='every row ascending afterwards; each row keeps its multiset of (col,val) pairs; sizes and row pointers unchanged',
     cuts=dict(sort_row=SORT_ROW_CALLEE, body=Cut(
